@@ -61,7 +61,7 @@ import nfc.clf.rcs380
 
 from vlib import ref_crc, simchip
 from vlib import ref_pn53x as ref
-from vlib.engine import HarnessError, Leg, Violation, unexpected
+from vlib.engine import HarnessError, Leg, Violation, twin_O, unexpected
 
 PROPERTY = "C14"
 LEVEL = "exploration"
@@ -1865,4 +1865,15 @@ LEGS = [
              "command reaches InCommunicateThru / InCommRF unchanged every "
              "time). Non-trivial = some command object was transmitted at "
              "least twice."),
+]
+
+# the same searches under "python -O": a response check that rests on an
+# assert statement validates nothing there (the quantifier of C14 does not
+# exempt any interpreter mode)
+_by = dict((lg.name, lg) for lg in LEGS)
+LEGS += [
+    twin_O(_by["rsp-mutations"], shards_quick=4),
+    twin_O(_by["rsp-subst"], quick=3000, thorough=60000, shards_quick=4),
+    twin_O(_by["tt2-path"], quick=1200, thorough=12000, shards_quick=4),
+    twin_O(_by["crc-random"], quick=800, thorough=8000, shards_quick=2),
 ]
